@@ -790,6 +790,7 @@ class SizedReader:
         self.bytes_read = 0
         self.done = False
         self.has_trailers = has_trailers
+        self.trailers_read = False
 
     def read(self, size=None, fp_out=None):
         """Read bytes from the request body and return or write them to a file.
@@ -930,7 +931,13 @@ class SizedReader:
     def finish(self):
         """Finalize reading the HTTP trailer headers."""
         self.done = True
+        if self.trailers_read:
+            # read() ends up here every time it finds the body exhausted;
+            # the trailer follows the body only once. Whatever comes
+            # next on the connection belongs to the next request.
+            return
         if self.has_trailers and hasattr(self.fp, 'read_trailer_lines'):
+            self.trailers_read = True
             self.trailers = {}
 
             try:
